@@ -118,7 +118,15 @@ def o_expand(spec):
 def repr_cases(draw, tier):
     mode = draw(st.sampled_from(["random", "random", "overshoot", "undershoot"]))
     n = draw(st.integers(1, 3)) if mode == "random" else draw(st.integers(2, 4))
-    if mode == "random":
+    dits = mode == "random" and draw(st.integers(0, 3)) == 0
+    if dits:
+        # outcomes of multi-level subsystems (values up to two digits); tuple keys only, a digit string cannot express them
+        keys = draw(st.lists(st.tuples(*[st.sampled_from([0, 1, 2, 3, 10, 12, 21])] * n), min_size=1, max_size=6, unique=True))
+        w = [draw(st.one_of(st.sampled_from([0.0, 1.0, 0.5, 1 / 3]), st.floats(0, 1, allow_nan=False))) for _ in keys]
+        if sum(w) <= 1e-9:
+            w[0] = 1.0
+        N = draw(st.one_of(st.sampled_from([1, 2, 3, 5, 10, 17, 100]), st.integers(1, 200)))
+    elif mode == "random":
         keys = draw(st.lists(st.tuples(*[st.integers(0, 1)] * n), min_size=1, max_size=2 ** n, unique=True))
         w = [draw(st.one_of(st.sampled_from([0.0, 1.0, 0.5, 1 / 3]), st.floats(0, 1, allow_nan=False))) for _ in keys]
         if sum(w) <= 1e-9:
@@ -132,7 +140,7 @@ def repr_cases(draw, tier):
         w = [1.0 + draw(st.sampled_from([0.0, 0.0, 1e-3, -1e-3])) for _ in keys]
         N = draw(st.integers(K // 2 + 1, K - 1)) if mode == "overshoot" else draw(st.integers(max(1, K // 4), max(1, K // 2 - 1)))
     return {"keys": [list(k) for k in keys], "w": w, "N": N, "seed": draw(st.integers(0, 2 ** 31 - 1)),
-            "str_keys": draw(st.booleans()), "mode": mode}
+            "str_keys": draw(st.booleans()) and not dits, "mode": mode, "dits": dits}
 
 
 def o_repr(spec):
@@ -160,6 +168,8 @@ def o_repr(spec):
     nonint = any(abs(p * N - round(p * N)) > 1e-6 for p in probs.values())
     rounded = sum(int(round(p * N)) for p in probs.values())
     extra = (["eliminate>=2"] if rounded - N >= 2 else []) + (["top_up>=2"] if N - rounded >= 2 else [])
+    if spec.get("dits"):
+        extra.append("multi_level_outcomes")
     return {"classes": extra + (["top_up_needed"] if nonint else ["exact"]) + (["zero_probability_outcome"] if any(v == 0 for v in probs.values()) else []),
             "nontrivial": nonint}
 
